@@ -58,17 +58,64 @@ def qualname(fn):
 
 
 class Firing:
-    __slots__ = ("interp", "cls", "fn", "args", "result", "prog")
+    __slots__ = ("interp", "cls", "fn", "args", "result", "prog", "region")
 
     def __init__(self, interp, cls, fn, args, result, prog):
         self.interp, self.cls, self.fn, self.args, self.result, self.prog = interp, cls, fn, args, result, prog
+        self.region = False     # args lie in the region of the open finding KF-shared-binder-unfold
 
     @property
     def rule(self):
         return qualname(self.fn)
 
     def reflected(self):
-        return reflect.interpret(self.cls, *self.args)
+        """The lazy term `cls(*args)` the result is compared against.  Where the class constructor or
+        reflect's alpha-mangling refuses the argument combination (a Contraction that is not in normal
+        form, a Reduce over a variable absent from its argument) an un-mangled `Pseudo` term stands for it."""
+        try:
+            return reflect.interpret(self.cls, *self.args)
+        except (AssertionError, KeyError):
+            p = pseudo_reflect(self.cls, self.args)
+            if p is None:
+                raise
+            return p
+
+
+class Pseudo:
+    """Stand-in for `cls(*args)` (kind 'reduce' | 'contraction'); read by py_denote and c02.wire_of."""
+
+    def __init__(self, kind, args, inputs, bound, **kw):
+        self.kind = kind
+        self._ast_values = args
+        self.inputs = inputs
+        self.bound = bound
+        self.__dict__.update(kw)
+
+    def __str__(self):
+        return f"{self.kind.capitalize()}(" + ", ".join(str(a) for a in self._ast_values) + ")"
+
+
+def pseudo_reflect(cls, args):
+    name = cls.__name__
+    if name == "Reduce" and len(args) == 3:
+        op, arg, rvars = args
+        if not (isinstance(arg, Funsor) and isinstance(rvars, frozenset)):
+            return None
+        names = {v.name for v in rvars}
+        inputs = OrderedDict((k, d) for k, d in arg.inputs.items() if k not in names)
+        return Pseudo("reduce", args, inputs, {v.name: v.output for v in rvars}, op=op, arg=arg, reduced_vars=rvars)
+    if name == "Contraction" and len(args) >= 4:
+        red_op, bin_op, rvars = args[:3]
+        terms = args[3] if len(args) == 4 and isinstance(args[3], tuple) else tuple(args[3:])
+        if not (isinstance(rvars, frozenset) and terms and all(isinstance(t, Funsor) for t in terms)):
+            return None
+        names = {v.name for v in rvars}
+        inputs = OrderedDict()
+        for t in terms:
+            inputs.update((k, d) for k, d in t.inputs.items() if k not in names)
+        return Pseudo("contraction", args, inputs, {v.name: v.output for v in rvars}, red_op=red_op, bin_op=bin_op,
+                      reduced_vars=rvars, terms=terms)
+    return None
 
 
 class Recorder:
@@ -197,6 +244,41 @@ def shares_binder(x, _limit=20000):
     return top(x)
 
 
+def bound_name_clash(args, _limit=20000):
+    """True iff some name is bound at two binder positions of a firing `cls(*args)`: the variables the
+    firing itself reduces (a frozenset of Variables among `args`) and every binder node inside the operands,
+    counted per path (a hash-consed binder reachable twice counts twice).  Mangled names are unique per binder
+    object, so a clash means a shared binder — the region of KF-shared-binder-unfold."""
+    count = {}
+    budget = [_limit]
+
+    def add(name):
+        c = count.get(name, 0) + 1
+        count[name] = c
+        return c > 1
+
+    def walk(t):
+        budget[0] -= 1
+        if budget[0] < 0:
+            return True
+        b = getattr(t, "bound", None)
+        if b:
+            for name in b:
+                if add(name):
+                    return True
+        return any(walk(c) for c in subfunsors(t) if not isinstance(c, Variable))
+
+    def top(v):
+        if isinstance(v, Funsor):
+            return walk(v)
+        if isinstance(v, frozenset) and v and all(isinstance(y, Variable) for y in v):
+            return any(add(y.name) for y in v)
+        if isinstance(v, (tuple, list)):
+            return any(top(y) for y in v)
+        return False
+    return any(top(a) for a in args)
+
+
 def term_size(t, cap=10000):
     n = 0
     stack = [t]
@@ -259,7 +341,7 @@ def _den(t, env):
             off = int(t.op.defaults.get("offset", 0))
             return a[(slice(None),) * off + (int(b),)]
         return np.asarray(t.op(a, b))
-    if isinstance(t, Reduce):
+    if isinstance(t, Reduce) or (isinstance(t, Pseudo) and t.kind == "reduce"):
         vals = [_den(t.arg, {**env, **a}) for a in _assignments(t.reduced_vars)]
         return np.asarray(_fold(t.op, vals))
     if isinstance(t, Subs):
@@ -285,7 +367,7 @@ def _den(t, env):
         n = t.fn.inputs[t.bint_var].size
         vals = [_den(t.fn, {**env, t.bint_var: i, t.diag_var: x[i]}) for i in range(n)]
         return np.asarray(_fold(ops.add, vals))
-    if isinstance(t, Contraction):
+    if isinstance(t, Contraction) or (isinstance(t, Pseudo) and t.kind == "contraction"):
         vals = []
         for a in _assignments(t.reduced_vars):
             e = {**env, **a}
